@@ -151,6 +151,8 @@ def systematic_blocks(p_mod: int = 1, p_rot: int = 0) -> Tuple[List[dict], Dict[
         (["set_object_fields.SOF.callable"], "fields"),
         (["deserializer.Op1.from_int", "deserializer.Op1.from_str"], "conv_d"),
         (["serializer.Op1.to_int"], "conv_s"),
+        (["deserializer.Op1.lazy_list"], "conv_d"),
+        (["serializer.Op1.lazy_str"], "conv_s"),
     ]
     for cfg_list, tag in installers:
         for o in obs:
@@ -161,6 +163,19 @@ def systematic_blocks(p_mod: int = 1, p_rot: int = 0) -> Tuple[List[dict], Dict[
                 hs.append({"ops": ops, "fault": {"at": len(cfg_list), "cb": "*", "n": k}, "block": "C"})
                 nc += 1
     counts["C"] = nc
+    # F: a registration that fails (raises half-way or is rejected) must not disable or skip
+    # later invalidation: observe, failing operation, ordinary change, observe
+    nf = 0
+    failing = [c for c in cfgs if "failing" in pool.TAGS[c]]
+    a_pairs = [(c, o) for c in cfgs for o in obs if pool.related(c, o) and "knob" not in pool.TAGS[c]
+               and "failing" not in pool.TAGS[c]]
+    for n_, (c, o) in enumerate(a_pairs):
+        if n_ % 9:
+            continue
+        f = failing[(n_ // 9) % len(failing)]
+        hs.append({"ops": [["obs", o], ["warm", o], ["cfg", f], ["cfg", c], ["obs", o]], "fault": None, "block": "F"})
+        nf += 1
+    counts["F"] = nf
     # P: cross-area pairs: two configuration operations of different areas related to the same
     # observation (e.g. a field validator, then a class aliaser that renames its error location)
     area_of = {c: a for a, names in pool.AREAS.items() for c in names}
